@@ -5,7 +5,7 @@ Open Scope Q_scope.
 (* tol = 0 makes this exact equality *)
 Definition qlist_close (tol : Q) (a b : list Q) : bool := list_eqb (fun u v => Qabs_le u v tol) a b.
 
-Definition inverted_agree (tol : Q) (a b : res inverted) : bool :=
+Definition inverted_agree (tol : Q) (a b : Res.res inverted) : bool :=
   match a, b with
   | ErrValue, ErrValue => true
   | Ok (Bare u), Ok (Bare v) => qlist_close tol u v
@@ -16,7 +16,7 @@ Definition inverted_agree (tol : Q) (a b : res inverted) : bool :=
 (* threshold_at_metric against the implementation: the recorded evaluation points, the recorded metric
    values and the result; end to end whenever points and values are reproduced exactly *)
 Definition tam_check (m : metric_name) (s : scores) (tg : target) (p : points_arg)
-    (pts_rec y_rec : list Q) (result : res inverted) (tolp tolz : Q) : bool :=
+    (pts_rec y_rec : list Q) (result : Res.res inverted) (tolp tolz : Q) : bool :=
   match select_points s p, result with
   | ErrValue, ErrValue => true
   | Ok pts, _ =>
